@@ -1059,7 +1059,7 @@ func mkIID(engine string, n uint64) index.IndexInternalID {
 }
 
 func runC08(t *Trace, r *Rng, tier string, _ []string) {
-	nIdx, nQ := 24, 30
+	nIdx, nQ := 48, 30
 	if tier == "thorough" {
 		nIdx, nQ = 150, 100
 	}
